@@ -110,7 +110,9 @@ class SUxnCtor:
     """the class UsageExecNode as seen by the build functions"""
 
     def __new__(cls, id_, key=None):
-        if key is None:
+        if hasattr(key, "_vc_keypath"):
+            k = key._vc_keypath()
+        elif key is None:
             k = kp_empty
         elif isinstance(key, list) and len(key) == 1 and isinstance(key[0], (SInt, int)):
             k = kp_append(kp_empty, int_key(sym.ti(key[0])))
